@@ -92,6 +92,21 @@ Definition drains_before_events (f : fn_def) : bool :=
 Lemma cache_messages_first : drains_before_events hot_reloading_thread = true.
 Proof. vm_compute. reflexivity. Qed.
 
+(* the reloader BLOCKS until one of its two channels is ready: every turn of its loop starts with
+   `select.ready()`, and nothing in the thread waits with a deadline, sleeps or polls the selector
+   (no ready_timeout / ready_deadline / try_ready / recv_timeout / sleep): an idle reloader is never
+   woken *)
+Definition waits_without_deadline (f : fn_def) : bool :=
+  match outer_loop_body f with
+  | ELetS (PIdent "ready" None) (Some (EMethod (EPath ["select"]) "ready" [])) None :: _ =>
+      forallb (fun m => negb (existsb (fun e => calls_method m e) (fn_body f)))
+        ["ready_timeout"; "ready_deadline"; "try_ready"; "select_timeout"; "select_deadline"; "try_select";
+         "recv_timeout"; "recv_deadline"; "sleep"; "park_timeout"; "wait_timeout"]
+  | _ => false
+  end.
+Lemma reloader_blocks_until_there_is_work : waits_without_deadline hot_reloading_thread = true.
+Proof. vm_compute. reflexivity. Qed.
+
 (* The Condvar/Mutex wrappers of utils/private.rs, for both lock implementations: wait_while
    re-checks its predicate after every wake-up (a `while`, not an `if`), notify_all wakes all,
    lock locks. *)
